@@ -26,6 +26,7 @@ EXPLANATION = ('TAB rules over SIG_TO_KEYS (105 entries), KEY_TO_SIG, KEY_TO_PRO
                'exhaustiveness against the regex alternation; TOKEN dispatch set equality and documented error classes; CONTAIN rules for '
                'parse_abc_tunebook and the raise inventory of ABCTune; KEYERR armed subscripts of constant tables by regex-group domains; '
                'ACC accidental precedence and bar clearing.')
+EXPLANATION += (' ' + "STATE/per-tune (sa/state.py): no attribute that the parser mutates in place through self is a mutable object bound once in the class body without a per-instance rebinding in __init__ (state would leak from one tune to the next). RHYTHM/*: the broken-rhythm boundary moves by len - len/2**n (rational normal form), later for '>' and earlier for '<', on both notes, after the equal-length check.")
 TRUSTED = ['music-theory oracle', 're._parser']
 NOT_DECIDED = ['pitch/onset/duration values over token sequences', 'repeat expansion order', 'key spellings outside the module\'s own table (e.g. K:G#) - outside the property\'s quantifier']
 ASSUMPTIONS = []
